@@ -544,6 +544,29 @@ def run(ctx):
             ref, ndiff, len(next(iter(spec_dev.values()), {}))))
         if len(devs) > 1:
             rep.note("the set of executions deviating from the specification is not the same in every configuration (see ConfigDiffers violations)")
+    # ---- C12, allocator clause for the spawn functions (spec/algebra/SpawnAlloc.tla)
+    if prop == "C12":
+        sedges = os.path.join(ctx.work, "spawnalloc.ndjson")
+        vlib.model_check(ctx, "algebra", "SpawnAllocMC", env={"EDGES": sedges}, workers=1, timeout=600)
+        sexe = vlib.build(ctx, "spawn_driver", [os.path.join(HERE, "spawn_driver.cpp")],
+                          lib=["inplace_stop_token.cpp", "async_stack.cpp", "exception.cpp", "manual_event_loop.cpp", "async_manual_reset_event_v1.cpp"],
+                          incs=[HERE], opt="-O0")
+        sout = os.path.join(ctx.work, "spawnalloc_out.ndjson")
+        rc, so, se = vlib.run_exe(sexe, ["--cases", sedges, "--out", sout], timeout=300)
+        d = vlib.classify_death(rc, se)
+        if d:
+            rep.violation(dict(engine="alg", event=d["event"], component="spawn-alloc", asan=d.get("asan"), frame=d.get("frame"),
+                               what="%s in the spawn allocator scenarios: %s %s" % (d["event"], d.get("asan", ""), d.get("frame", "")), detail=d.get("stderr_tail")))
+        exp = [json.loads(l) for l in open(sedges) if l.strip()]
+        gotc = [json.loads(l) for l in open(sout) if l.strip()] if os.path.exists(sout) else []
+        for e_, g_ in zip(exp, gotc):
+            rep.evaluations += 1
+            rep.distinct.add(hash(("spawn", e_["form"], e_["tag"], e_["ch"])))
+            if (g_["allocs"], g_["frees"], g_["leafAlloc"], g_["foreignFree"]) != (e_["allocs"], e_["frees"], e_["leafAlloc"], False):
+                rep.violation(dict(engine="alg", event="ObservationMismatch", component="spawn-alloc", form=e_["form"], fields=["C12.alloc"],
+                                   what="%s with allocator tag %d: expected %d allocations / %d frees on that allocator and the leaf seeing it; got allocs=%d frees=%d leaf sees %d%s" % (
+                                       e_["form"], e_["tag"], e_["allocs"], e_["frees"], g_["allocs"], g_["frees"], g_["leafAlloc"], " (a block was returned to a different allocator)" if g_["foreignFree"] else "")))
+        rep.note("spawn allocator scenarios: %d cases (spawn_detached / spawn_future x function / piped form x allocator tag x leaf outcome)" % len(gotc))
     for b in behaviours[:2]:
         rep.sample(dict(kind="tlc-behaviour", shape=by_id[b["cfg"]["shape"]]["spec"]["text"], modes=b["cfg"]["mode"],
                         steps=[dict(k=s["k"], n=s["n"], ch=s["ch"], expect_root=s["exp"]["root"], expect_seen=s["exp"]["seen"]) for s in b["steps"]]))
